@@ -20,7 +20,7 @@ pub const KINDS: [(&str, bool); 19] = [
 ];
 pub const COUNTS: [u32; 3] = [1, 2, 12];
 pub const LAYOUTS: [&str; 3] = ["single-sheet", "first-of-3", "last-of-3"];
-pub const SHEET_OPS: [&str; 9] = ["none", "remove-first", "remove-last", "rename", "active-0", "active-1", "active-last", "remove-active", "remove-first-then-add"];
+pub const SHEET_OPS: [&str; 12] = ["none", "remove-first", "remove-last", "rename", "active-0", "active-1", "active-last", "remove-active", "remove-first-then-add", "remove-first-by-name", "remove-middle-by-name", "remove-middle"];
 
 fn quoted(name: &str) -> String {
     if name.chars().all(|c| c.is_ascii_alphanumeric()) {
@@ -185,6 +185,17 @@ pub fn build(kinds: &[(usize, u32)], layout: usize, op: usize) -> Spreadsheet {
         "remove-first-then-add" if n > 1 => {
             b.remove_sheet(0).unwrap();
             b.new_sheet("Added later").unwrap();
+        }
+        "remove-first-by-name" if n > 1 => {
+            let name = b.get_sheet(&0).unwrap().get_name().to_string();
+            b.remove_sheet_by_name(&name).unwrap();
+        }
+        "remove-middle-by-name" if n > 2 => {
+            let name = b.get_sheet(&1).unwrap().get_name().to_string();
+            b.remove_sheet_by_name(&name).unwrap();
+        }
+        "remove-middle" if n > 2 => {
+            b.remove_sheet(1).unwrap();
         }
         "remove-active" if n > 1 => {
             b.set_active_sheet(1);
